@@ -36,27 +36,37 @@ def run(ck, replay=None):
     quick = ck.tier == "quick"
     syslog.sysmon_bin()
     exes = [(m, r, tp.build(m, r)) for m, r in tp.flavours(quick)]
-    n_cells = 50 if quick else 500
+    n_cells = 150 if quick else 500
     jobs, meta = [], []
+    spawn_calls = tp.discover_spawn_calls(exes, ck.seed, "c06")
     # thorough repeats the whole matrix at several seeds: the interleavings seen differ from run to run
     reps = 1 if quick else 6
     for i, (m, r, exe) in [(i + 5000 * rep, f) for rep in range(reps) for i, f in enumerate(exes)]:
-        for scen, n, quar in (("cells", n_cells, 1), ("heapres", 40 if quick else 400, 1),
-                              ("mixed", 500 if quick else 8000, 1), ("mixed", 500 if quick else 8000, 0),
-                              ("churn", 24 if quick else 400, 0), ("spurious_eintr", 30 if quick else 300, 1),
-                              ("spurious_wake", 30 if quick else 300, 1)):
+        for scen, n, quar in (("cells", n_cells, 1), ("heapres", 120 if quick else 400, 1),
+                              ("mixed", 1500 if quick else 8000, 1), ("mixed", 1500 if quick else 8000, 0),
+                              ("churn", 40 if quick else 400, 0), ("spurious_eintr", 100 if quick else 300, 1),
+                              ("spurious_wake", 100 if quick else 300, 1), ("exit_window", 100 if quick else 300, 1)):
             jobs.append(tp.native_job(exe, scen, ck.seed + 7 * i + len(jobs), n, quar, timeout=150 if quick else 1800))
             meta.append(("native", m, r, scen, None))
         log = tp.tmp_log("c06-cells")
-        jobs.append(tp.sysmon_job(exe, "cells", ck.seed + 500 + i, 12 if quick else 60, log, timeout_s=90 if quick else 900, entries=True))
+        jobs.append(tp.sysmon_job(exe, "cells", ck.seed + 500 + i, 25 if quick else 60, log, timeout_s=90 if quick else 900, entries=True))
         meta.append(("sysmon", m, r, "cells", log))
         log = tp.tmp_log("c06-mixed")
-        jobs.append(tp.sysmon_job(exe, "mixed", ck.seed + 600 + i, 150 if quick else 1500, log, timeout_s=90 if quick else 900, entries=True))
+        jobs.append(tp.sysmon_job(exe, "mixed", ck.seed + 600 + i, 400 if quick else 1500, log, timeout_s=90 if quick else 900, entries=True))
         meta.append(("sysmon", m, r, "mixed", log))
-        for scen in ("fault_clone", "fault_mmap"):
-            log = tp.tmp_log("c06-" + scen)
-            jobs.append(tp.sysmon_job(exe, scen, ck.seed + 700 + i, 6, log, timeout_s=8))
-            meta.append(("sysmon-fault", m, r, scen, log))
+        if i >= 5000:
+            continue
+        # every system call spawn performs (read from an un-injected traced run) is refused in turn: nothing
+        # spawn set up before the refusal - heap blocks or mappings - may be left behind
+        calls = spawn_calls.get((m, r))
+        if not calls:
+            ck.note_inconclusive("%s/%s: spawn's system calls could not be read from the un-injected run" % (m, "release" if r else "debug"))
+            continue
+        for nr, occ in calls:
+            log = tp.tmp_log("c06-fault")
+            jobs.append(tp.sysmon_job(exe, "fault_nr", ck.seed + 700 + i, nr, log, timeout_s=8, extra=(occ,)))
+            meta.append(("sysmon-fault", m, r, "fault_%s%s" % (syslog.NAME.get(nr, nr), "" if occ == 0 else "#%d" % occ), log))
+            ck.note_distinct("refused/%s#%d" % (syslog.NAME.get(nr, nr), occ))
     # second opinion: memcheck on the static probe (sees accesses to unmapped stacks / freed mappings;
     # the custom allocator's blocks are opaque to it, so the quarantine is switched off)
     import shutil
